@@ -30,10 +30,10 @@ LEVEL_TEXT = ("Props/C09.v, whole pipeline: C09_matched_input_pipeline_invariant
               "numbered in different orders) again differ by a locally injective renaming. Fixed-width effects (dtype, pair code, lookup table) "
               "are outside the model: the pair code is injective and fits 64 bits for labels < 2^24 (GenEq_MatcherLoop), the rest is decided by "
               "metamorphic correspondence on the implementation over dtypes and label magnitudes.")
-LEVEL_NOTE = ("Partial in Coq for: the merge matcher and semantic input (connected-component numbering) -- building blocks proved, composition by "
-              "correspondence; geometric metric values (ASSD/clDice) enter as parameters required to agree on corresponding instances (their "
+LEVEL_NOTE = ("The merge matcher has its own whole-pipeline theorem (C09_unmatched_input_merge_matcher_pipeline_invariant, hypothesis: no two "
+              "candidates equally good). Semantic input: component numbering is covered by C01_semantic_result_independent_of_component_numbering; geometric metric values (ASSD/clDice) enter as parameters required to agree on corresponding instances (their "
               "label-independence is C07). Trusted: Coq kernel, translator, harness.")
-TECHNIQUE = "machine-checked proof in Rocq (Coq) (invariance lemmas, partial composition) + metamorphic correspondence on the implementation"
+TECHNIQUE = "machine-checked proof in Rocq (Coq) (whole-pipeline renaming invariance, by transport and uniqueness of the matching specification) + AST re-translation (GenEq) + metamorphic correspondence on the implementation"
 
 SPECIAL = [255, 256, 65535, 65536, 65537, 2 ** 24 - 1, 70000, 128, 129]
 
